@@ -297,8 +297,8 @@ func init() {
 		Required:    req,
 		Families: func(c *mon.Config) []mon.Family {
 			return []mon.Family{
-				{Name: "patterns", N: len(c15Offsets) * len(c15Patterns) * c.Pick(60, 3000), Run: c15Patterned},
-				{Name: "long-reclaim", N: c.Pick(4, 32), Run: c15Long},
+				{Name: "patterns", N: len(c15Offsets) * len(c15Patterns) * c.Pick(100, 6000), Run: c15Patterned},
+				{Name: "long-reclaim", N: c.Pick(4, 64), Run: c15Long},
 			}
 		},
 	})
